@@ -291,7 +291,7 @@ def run(ctx: Ctx) -> None:
     ctx.rule = (
         "packages of 6-12 functions and 3-6 classes (attributes, methods, properties, constructors with instance "
         "attributes, 0-3 public bases) whose parameters/results/attributes draw flagged and unflagged constructs "
-        "independently, declaration order permuted; evaluations = judged declarations; non-trivial = a declaration "
+        "independently, 0-2 class type parameters with value constraints (invariant) or bounds (co-/contravariant) from the same type pool, declaration order permuted; evaluations = judged declarations; non-trivial = a declaration "
         "with >=2 marker classes whose neighbour has a different set (distinct by the two sets)."
     )
     ctx.assumptions = [
